@@ -125,6 +125,8 @@ pub struct PeerStats {
     /// peer never acknowledged (so it owes a retransmission) and its poll_at answer was examined
     pub owed_retransmission_checks: u64,
     pub sack_blocks_checked: u64,
+    pub keep_alive_calls: u64,
+    pub keep_alive_calls_in_time_wait: u64,
 }
 
 pub struct PeerSim {
@@ -786,6 +788,25 @@ impl PeerSim {
         self.judge_transition(before, after, "abort()", &[State::Closed], "abort() closes");
     }
 
+    /// The application switches keep-alive on, off or to another interval - in whatever state the
+    /// socket happens to be (also half-closed and in TIME-WAIT).  The call itself never changes the
+    /// state, and every later oracle (TIME-WAIT ends after 10 s, deadlines, sender rules) still holds.
+    fn api_keep_alive(&mut self, rng: &mut Rng) {
+        let before = self.state();
+        let v = *rng.pick(&[None, Some(500u64), Some(5_000), Some(75_000)]);
+        self.sock().set_keep_alive(v.map(Duration::from_millis));
+        if v.is_some() {
+            self.smon.keep_alive = true;
+        }
+        self.stats.keep_alive_calls += 1;
+        if before == State::TimeWait {
+            self.stats.keep_alive_calls_in_time_wait += 1;
+        }
+        let after = self.state();
+        self.note(format!("api set_keep_alive({:?}) in {}", v, before));
+        self.judge_transition(before, after, "set_keep_alive()", &[], "set_keep_alive() never changes the state");
+    }
+
     fn api_send(&mut self, rng: &mut Rng) {
         let before = self.state();
         if self.written < self.cfg.sock_total {
@@ -1209,6 +1230,12 @@ impl PeerSim {
             } else if r < w_seg + w_time {
                 let dt = *rng.pick(&[0i64, 1_000, 10_000, 200_000, 1_000_000, 3_000_000, 10_000_000, 61_000_000]);
                 self.time_and_egress(dt);
+                // now and then the application changes the keep-alive setting (not against the stingy
+                // peers of C02, whose runs live on the socket having no other timer)
+                let toggle = rng.chance(1, if self.state() == State::TimeWait { 3 } else { 25 });
+                if toggle && !self.cfg.stingy {
+                    self.api_keep_alive(rng);
+                }
             } else if r < w_seg + w_time + w_send {
                 self.api_send(rng);
                 if rng.bool() {
